@@ -442,6 +442,17 @@ func (d *DB) PointScan(table string, col int, key Val) ([]Row, error) {
 	return d.rowsOf(d.Begin(), plans.NewPointScanWithIndexPlanNode(d.Cat(), tm.Schema(), cmp, tm.OID()))
 }
 
+// PointPlan builds an explicit index point scan (column = key) to be run inside the transaction.
+func (t *Txn) PointPlan(table string, col int, key Val) (plans.Plan, error) {
+	tm := t.D.Cat().GetTableByName(table)
+	if tm == nil {
+		return nil, fmt.Errorf("table %s not found", table)
+	}
+	cmp := expression.NewComparison(expression.NewColumnValue(0, uint32(col), key.TypeID()),
+		expression.NewConstantValue(key.ToValue(), key.TypeID()), expression.Equal, types.Boolean).(*expression.Comparison)
+	return plans.NewPointScanWithIndexPlanNode(t.D.Cat(), tm.Schema(), cmp, tm.OID()), nil
+}
+
 // RangeScan reads rows with lo <= column <= hi through an explicit RangeScanWithIndexPlanNode; nil = open end.
 func (d *DB) RangeScan(table string, col int, lo, hi *Val) ([]Row, error) {
 	tm := d.Cat().GetTableByName(table)
